@@ -66,6 +66,9 @@ func c06Oracle(c *vlib.Case) *vlib.Violation {
 		}
 	}()
 	repeats := c06Repeats
+	if n := asInt(c.Params["repeats"]); n > repeats {
+		repeats = n
+	}
 	if vlib.Mode() == "replay" {
 		repeats = 40 // replays and known-finding probes must not pass by luck
 	}
@@ -338,6 +341,46 @@ func genMultiFault(r vlib.Rnd) ([]byte, int) {
 	return []byte(sb.String()), faults
 }
 
+// c06ValidatePhase: documents whose only faults are found by the checks made on the finished catalog (an empty INFO, a
+// Request or a response that has Headers and no body, Headers that are not an object), several of them in one document,
+// rebuilt 80 times: which of the faults is reported must not depend on anything but the document.
+var c06ValidatePhase = &vlib.Check{
+	Prop: "C06", Name: "validate-phase", Quick: 64, Thorough: 4000,
+	Oracle: c06Oracle, Classify: c06Classify,
+	Gen: func(t *rapid.T) *vlib.Case {
+		r := vlib.RapidRnd{T: t}
+		var sb strings.Builder
+		sb.WriteString("JSIGHT 0.3\n")
+		n := 2 + r.Intn(3)
+		faults := 0
+		info := false
+		for i := 0; i < n; i++ {
+			switch k := r.Intn(6); {
+			case k == 0 && !info:
+				sb.WriteString("INFO\n")
+				info = true
+				faults++
+			case k <= 1:
+				fmt.Fprintf(&sb, "POST /rq%d\n  Request\n    Headers\n      {\"h\": 1}\n  200 any\n", i)
+				faults++
+			case k == 2:
+				fmt.Fprintf(&sb, "GET /rs%d\n  200\n    Headers\n      {\"h\": 1}\n", i)
+				faults++
+			case k == 3:
+				fmt.Fprintf(&sb, "GET /hs%d\n  200\n    Headers\n      @arr\n    Body any\n", i)
+				faults++
+			case k == 4:
+				fmt.Fprintf(&sb, "PUT /hq%d\n  Request\n    Headers\n      @arr\n    Body any\n  200 any\n", i)
+				faults++
+			default:
+				fmt.Fprintf(&sb, "GET /ok%d\n  200 any\n", i)
+			}
+		}
+		sb.WriteString("TYPE @arr\n  [1]\n")
+		return &vlib.Case{Project: vlib.SingleFile([]byte(sb.String())), Params: map[string]any{"faults": faults, "repeats": 80}}
+	},
+}
+
 var c06Stream = &vlib.Check{
 	Prop: "C06", Name: "repeat", Quick: 5000, Thorough: 320000,
 	Oracle: c06Oracle, Inner: c06Inner, Classify: c06Classify,
@@ -488,12 +531,13 @@ var c06Concurrent = &vlib.Check{
 
 var c06Corpus = &vlib.Check{Prop: "C06", Name: "corpus", Oracle: c06Oracle, Inner: c06Inner, Classify: c06Classify}
 
-func init() { vlib.Register(c06Stream, c06Corpus, c06Concurrent) }
+func init() { vlib.Register(c06Stream, c06Corpus, c06Concurrent, c06ValidatePhase) }
 
 func TestC06(t *testing.T) {
 	if vlib.Shard() == 0 {
 		t.Run("corpus", func(t *testing.T) { c06Corpus.RunEnum(t, corpusEnum()) })
 	}
 	t.Run("repeat", c06Stream.Run)
+	t.Run("validate-phase", c06ValidatePhase.Run)
 	t.Run("concurrent-builds", c06Concurrent.Run)
 }
